@@ -375,6 +375,9 @@ def shrink_case(module, part_name: str, clause: str, case, known_key, budget_s: 
     keeps a candidate only if the same (clause, known_key) failure reproduces.
     """
     body = module.PARTS[part_name]
+    mode = getattr(module, "SHRINK", "full")  # "full" | "records" (never touch numbers: fields constrain each other) | "none"
+    if mode == "none":
+        return case, True
     scratch = Path(tempfile.mkdtemp(prefix="vf_shrink_"))
     ws = WorkerState(module, 0, 1, "quick", 0, scratch)
     kk = getattr(module, "known_key", None)
@@ -405,7 +408,7 @@ def shrink_case(module, part_name: str, clause: str, case, known_key, budget_s: 
                     d = dict(c)
                     d[k] = sv
                     yield d
-        elif isinstance(c, bool):
+        elif isinstance(c, bool) or mode == "records":
             return
         elif isinstance(c, int) and c not in (0, 1):
             yield 1
